@@ -425,3 +425,12 @@ Definition wf_conf (ipp : bytes -> option bytes) (files : bytes -> fentry) (bl :
   is_num_le usize_max (kv_last k_size (sub_bodies k_cache ss)) /\ is_int_le usize_max (kv_last k_time (sub_bodies k_cache ss)) /\
   wf_routes ss /\
   Forall (fun s => match s with SSec (KHost _ _) body => wf_routes body | _ => True end) ss.
+
+(* ---------------------------------------------------------------------------------------------- pattern lists *)
+(* the text of a comma-separated pattern list: first pattern, then (blanks, comma, blanks, pattern) for each further one *)
+Fixpoint pats_text (p : bytes) (rest : list (bytes * bytes * bytes)) : bytes :=
+  match rest with
+  | [] => p
+  | (w1, w2, q) :: rest' => p ++ w1 ++ COMMA :: w2 ++ pats_text q rest'
+  end.
+Definition wf_pattern (p : bytes) : Prop := vis_ends p /\ ~ In COMMA p.
